@@ -136,9 +136,10 @@ static std::string defect_regime() {
   bool same_side = l1 * l2 >= 0 && (l1 != l2 || g_route.moved) && notpole;
   if (g_route.nonfinite && l1 * l2 > 0 && std::fabs(l1) > 45 && std::fabs(l2) > 45 && std::fabs(l1 - l2) < 1e-9 && notpole)
     return "defect:C09/exact/DParametric-0-over-0-for-nearby-latitudes-poleward-of-45deg";
-  if (l1 * l2 >= 0 && std::min(std::fabs(l1), std::fabs(l2)) < 1e-280 && std::max(std::fabs(l1), std::fabs(l2)) > 0)
-    return "defect:C09/exact/underflowing-latitude-difference";
   if (E.f < 0 && same_side) return "defect:C09/exact/prolate-DE-cancellation-same-side-of-equator";
+  // a non-zero latitude so small that differences of its tangent underflow
+  if (l1 * l2 >= 0 && ((l1 != 0 && std::fabs(l1) < 1e-280) || (l2 != 0 && std::fabs(l2) < 1e-280)))
+    return "defect:C09/exact/underflowing-latitude-difference";
   if (boa < 0.3 || boa > 3) return "defect:C09/exact/extreme-eccentricity-accuracy";
   return "";
 }
@@ -498,6 +499,7 @@ static void direct_case(Ctx& c, const DirCase& k) {
   c.count(cls, h);
   if (c.want_sample(cls)) c.sample(cls, J().f("a", k.ep.a).f("f", k.ep.f).f("lat1", k.lat1).f("lon1", k.lon1).f("azi12", k.azi12).f("s12", k.s12).b("unroll", k.unroll));
   if (r.crossed) c.event("direct cases crossing a pole"); else if (!r.from_pole) c.event("direct cases not crossing a pole");
+  c.event(k.unroll ? "direct cases with LONG_UNROLL" : "direct cases without LONG_UNROLL");
   DirOut oe = judge_direct(c, cls + "/exact", E, false, k.lat1, k.lon1, k.azi12, k.s12, k.unroll, r, nullptr, "GenDirect");
   // the three-output and two-output Direct overloads are GenDirect with fixed masks: identical bits (when not unrolled)
   {
@@ -606,9 +608,9 @@ static void sec_line(Ctx& c, uint64_t) {
 // ---------------------------------------------------------------------------- directed catalogue
 static void sec_directed(Ctx& c, uint64_t idx) {
   static const double fs[] = {WGS84_F, 0, 0.01, -0.01, 0.5, -1.0, 0.99, -99.0};
-  static const double lats[] = {0, -0.0, 90, -90, 45, -45, 89.999999999999986, -89.999999999999986, 1e-300, 60};
+  static const double lats[] = {0, -0.0, 90, -90, 45, -45, 89.999999999999986, -89.999999999999986, 1e-300, 60, -1e-20};
   static const double lons[] = {0, 180, -180, 179.99999999999997, -179.99999999999997, 90, -90, 1e-15, 360, 540};
-  const uint64_t nf = 8, nl = 10, nn = 10;
+  const uint64_t nf = 8, nl = 11, nn = 10;
   uint64_t i = idx;
   int kind = i % 2; i /= 2;
   double f = fs[i % nf]; i /= nf;
@@ -628,7 +630,7 @@ static void sec_directed(Ctx& c, uint64_t idx) {
     direct_case(c, k);
   }
 }
-static const uint64_t N_DIRECTED = 2 * 8 * 10 * 12 * 14;
+static const uint64_t N_DIRECTED = 2 * 8 * 11 * 12 * 14;
 
 // ---------------------------------------------------------------------------- EllipsoidArea and oracle self-validation
 static void sec_ellipsoid(Ctx& c, uint64_t) {
